@@ -39,6 +39,7 @@ type XKey struct {
 	Key       []byte // 32-byte private key, or 33-byte serialized public key
 	ChainCode []byte
 	ParentPub []byte // serialized public key of the parent, nil for a master key
+	Secret    []byte // for an extended PUBLIC key whose private scalar the model happens to know (only used by Warp)
 }
 
 // Faults is the injected behaviour of the collaborator for one operation.
@@ -46,7 +47,18 @@ type Faults struct {
 	Reject      func(cand []byte) bool
 	PermanentAt int                    // 0: never; n: the n-th validity decision of this operation fails permanently
 	Permanent   func(cand []byte) bool // the collaborator fails permanently on this candidate
-	calls       int
+	// Warp, if set, is the candidate mapping of a pluggable curve: the curve uses Warp(kind, I_L, parent scalar) instead
+	// of I_L as the key material / additive shift (kind is "master" or "child"; the parent scalar is nil when the
+	// curve does not know it). The validity rule of the curve is then applied to the mapped candidate.
+	Warp  func(kind string, il []byte, parent *big.Int) []byte
+	calls int
+}
+
+func (f *Faults) warp(kind string, il []byte, parent *big.Int) []byte {
+	if f.Warp == nil {
+		return il
+	}
+	return f.Warp(kind, il, parent)
 }
 
 // ErrKind is the outcome class of a model operation.
@@ -115,7 +127,11 @@ func (x *XKey) Fingerprint() []byte {
 
 // Neuter returns the extended public key of x.
 func (x *XKey) Neuter() *XKey {
-	return &XKey{Curve: x.Curve, Private: false, Key: x.Public(), ChainCode: x.ChainCode, ParentPub: x.ParentPub}
+	n := &XKey{Curve: x.Curve, Private: false, Key: x.Public(), ChainCode: x.ChainCode, ParentPub: x.ParentPub, Secret: x.Secret}
+	if x.Private {
+		n.Secret = x.Key
+	}
+	return n
 }
 
 // Master derives the master key from seed.
@@ -128,8 +144,10 @@ func Master(c *SlipCurve, seed []byte, f *Faults) (*XKey, ErrKind) {
 		if perm {
 			return nil, ErrPermanent
 		}
+		cand := il
 		if !rej && c.EC != nil {
-			k := new(big.Int).SetBytes(il)
+			cand = f.warp("master", il, nil)
+			k := new(big.Int).SetBytes(cand)
 			if k.Sign() == 0 || k.Cmp(c.EC.N) >= 0 {
 				rej = true
 			}
@@ -138,7 +156,7 @@ func Master(c *SlipCurve, seed []byte, f *Faults) (*XKey, ErrKind) {
 			s = i
 			continue
 		}
-		return &XKey{Curve: c, Private: true, Key: append([]byte{}, il...), ChainCode: append([]byte{}, ir...)}, OK
+		return &XKey{Curve: c, Private: true, Key: append([]byte{}, cand...), ChainCode: append([]byte{}, ir...)}, OK
 	}
 }
 
@@ -164,13 +182,13 @@ func (x *XKey) Child(index uint32, f *Faults) (*XKey, ErrKind) {
 		if perm {
 			return nil, ErrPermanent
 		}
-		var child []byte
+		var child, childSecret []byte
 		if !rej {
 			switch {
 			case c.EC == nil:
 				child = append([]byte{}, il...)
 			case x.Private:
-				k := new(big.Int).SetBytes(il)
+				k := new(big.Int).SetBytes(f.warp("child", il, new(big.Int).SetBytes(x.Key)))
 				if k.Cmp(c.EC.N) >= 0 {
 					rej = true
 					break
@@ -183,7 +201,11 @@ func (x *XKey) Child(index uint32, f *Faults) (*XKey, ErrKind) {
 				}
 				child = k.FillBytes(make([]byte, 32))
 			default:
-				k := new(big.Int).SetBytes(il)
+				var parent *big.Int
+				if x.Secret != nil {
+					parent = new(big.Int).SetBytes(x.Secret)
+				}
+				k := new(big.Int).SetBytes(f.warp("child", il, parent))
 				if k.Cmp(c.EC.N) >= 0 {
 					rej = true
 					break
@@ -194,12 +216,16 @@ func (x *XKey) Child(index uint32, f *Faults) (*XKey, ErrKind) {
 					break
 				}
 				child = p
+				if parent != nil {
+					sum := new(big.Int).Add(parent, k)
+					childSecret = sum.Mod(sum, c.EC.N).FillBytes(make([]byte, 32))
+				}
 			}
 		}
 		if rej {
 			i = hmac512(x.ChainCode, []byte{1}, ir, ser32(index))
 			continue
 		}
-		return &XKey{Curve: c, Private: x.Private, Key: child, ChainCode: append([]byte{}, ir...), ParentPub: parentPub}, OK
+		return &XKey{Curve: c, Private: x.Private, Key: child, ChainCode: append([]byte{}, ir...), ParentPub: parentPub, Secret: childSecret}, OK
 	}
 }
